@@ -30,6 +30,9 @@ func hqCost(in string) int {
 			c += 3
 		}
 	}
+	if kv["pz"] == "1" {
+		c += 4
+	}
 	return c + 5*strings.Count(kv["steps"], "W")
 }
 
@@ -41,7 +44,7 @@ func init() {
 		Header:   "From ZenoV Require Import Lib.Harness Lib.Hex Queue.HopsPath Queue.Batcher Queue.QueueHarness.\n",
 		CaseType: "hcase",
 		Footer:   "\nDefinition DIFF := Eval vm_compute in hdiffs cases.\nPrint DIFF.\nDefinition MON := Eval vm_compute in hmons cases.\nPrint MON.\n",
-		Rule:     "one case = one run of the real hq source (consumer, producer, finisher, websocket goroutines, real gocrawlhq client) in its own process against a fake crawl HQ that answers the k-th add / delete / get request as a generated fault sequence says (O ok, 5 = 503, R = connection reset, S = stall until the client's 5 s timeout, L = accepted but the answer is lost; runs of 1..2 failures everywhere, and in ~30% of the cases an outage: the same add, delete or get request fails 3..6 times in a row before it succeeds): batch size 1..5, workers 1..25 (1 or 2 senders), 1..14 outlinks (texts from a pool incl. unparsable, non-ASCII, duplicates; hops 0..300) produced back to back with optional waits that force timer-triggered flushes, accepted URLs handed out again on get, seeds finished (0..2 children) or held by a plan; distinct by input; non-trivial when at least one request failed and was retried AND at least one batch left on the timer (smaller than the batch size)",
+		Rule:     "one case = one run of the real hq source (consumer, producer, finisher, websocket goroutines, real gocrawlhq client) in its own process against a fake crawl HQ that answers the k-th add / delete / get request as a generated fault sequence says (O ok, 5 = 503, R = connection reset, S = stall until the client's 5 s timeout, L = accepted but the answer is lost; runs of 1..2 failures everywhere, and in ~30% of the cases an outage: the same add, delete or get request fails 3..6 times in a row before it succeeds): batch size 1..5, workers 1..25 (1 or 2 senders), 1..14 outlinks (texts from a pool incl. unparsable, non-ASCII, duplicates; hops 0..300) produced back to back with optional waits that force timer-triggered flushes, accepted URLs handed out again on get, seeds finished (0..2 children) or held by a plan; in ~22% of the cases the outlinks are what the REAL preprocess/postprocess return for a seed tree with a scripted archiver (page behind 0..3 redirects, links in the page's HTML and/or in the JSON document of a child asset), in ~35% finished seeds pass through the REAL finisher workers, in ~12% pause.Pause()/Resume() is called while a finisher worker is stuck handing a seed to the source during a DELETE outage; distinct by input; non-trivial when at least one request failed and was retried AND at least one batch left on the timer (smaller than the batch size)",
 		Gen:      genHQFlow,
 		Exec:     execHQFlow,
 		Shrink:   shrinkHQFlow,
@@ -73,7 +76,7 @@ func parseHQInput(in string) (*hqInput, bool) {
 	}
 	if kv["steps"] != "" {
 		for _, s := range strings.Split(kv["steps"], ",") {
-			if s == "W" || s == "X" {
+			if s == "W" || s == "X" || s == "PA" {
 				h.steps = append(h.steps, s)
 				continue
 			}
@@ -103,6 +106,7 @@ func hqSpecOf(in string) (string, bool) {
 		BSize: atoiDef(h.kv["b"], 2), Workers: atoiDef(h.kv["w"], 1), Items: h.items, Steps: h.steps,
 		AddF: h.kv["addf"], DelF: h.kv["delf"], GetF: h.kv["getf"], Consume: h.kv["c"] == "1", Fin: h.kv["fin"],
 		Dir: "@DIR@", WaitMs: atoiDef(h.kv["wait"], 25000),
+		PP: h.kv["pp"], PPHops: atoiDef(h.kv["ph"], 0), RealFin: h.kv["rf"] == "1", PauseOutage: h.kv["pz"] == "1",
 	}
 	if h.kv["wait"] == "" {
 		// watchdog for "not delivered": two timer periods for the producer and two for the finisher,
@@ -281,12 +285,59 @@ func genHQFlow(r *Rng, i int, tier string) string {
 			delf = "R5L5" + "O"
 		}
 	}
+	extra := ""
+	switch k := r.Intn(100); {
+	case k < 22:
+		// the outlinks come from the REAL postprocessor: page behind 0..3 redirects, links in the
+		// page and / or in the document of a child asset (pptree.go)
+		pp := fmt.Sprintf("r%d", r.Intn(4))
+		switch r.Intn(3) {
+		case 0:
+			pp += "h"
+		case 1:
+			pp += "j"
+		default:
+			pp += "hj"
+		}
+		items, steps = nil, []string{"PA"}
+		if anyBad {
+			fin = []string{"0", "1", "01"}[r.Intn(3)]
+		}
+		extra = fmt.Sprintf(" pp=%s ph=%d", pp, []int{0, 0, 1, 3, 7}[r.Intn(5)])
+		if consume && r.Chance(50) {
+			extra += " rf=1"
+		}
+	case k < 34:
+		// pause during an outage: one sender, tiny batches, the DELETE of the first batch fails three
+		// times (7 s) while more seeds finish than the source's pipeline can hold, so that a finisher
+		// worker is stuck handing a seed over; then pause.Pause()/Resume() - every ack must still arrive
+		workers = 1 + r.Intn(2)
+		n := 4*workers + 2 + r.Intn(3)
+		bsize = []int{1, 2, n}[r.Intn(3)]
+		items, steps = nil, nil
+		for j := 0; j < n; j++ {
+			items = append(items, fmt.Sprintf("%x,%x,%d", fmt.Sprintf("http://pz.test/%d", j), pickVia(r, false), pickHops(r)))
+			steps = append(steps, fmt.Sprintf("P%d", j))
+		}
+		consume, fin = true, []string{"0", "1", "02"}[r.Intn(3)]
+		addf, getf = "O", ""
+		var run strings.Builder
+		for j := 0; j < 3; j++ {
+			run.WriteByte("555RRL"[r.Intn(6)])
+		}
+		delf = run.String() + "O"
+		extra = " rf=1 pz=1"
+	case k < 55:
+		if consume && !anyBad {
+			extra = " rf=1"
+		}
+	}
 	c := 0
 	if consume {
 		c = 1
 	}
-	in := fmt.Sprintf("b=%d w=%d c=%d fin=%s addf=%s delf=%s getf=%s items=%s steps=%s", bsize, workers, c, fin, addf, delf, getf,
-		strings.Join(items, ";"), strings.Join(steps, ","))
+	in := fmt.Sprintf("b=%d w=%d c=%d fin=%s addf=%s delf=%s getf=%s items=%s steps=%s%s", bsize, workers, c, fin, addf, delf, getf,
+		strings.Join(items, ";"), strings.Join(steps, ","), extra)
 	hqPool.note(in)
 	return in
 }
@@ -301,8 +352,14 @@ func shrinkHQFlow(in string) []string {
 		for _, q := range items {
 			it = append(it, fmt.Sprintf("%s,%s,%d", q.V, q.Via, q.Hops))
 		}
-		return fmt.Sprintf("b=%s w=%s c=%s fin=%s addf=%s delf=%s getf=%s items=%s steps=%s", kv["b"], kv["w"], kv["c"], kv["fin"], kv["addf"], kv["delf"], kv["getf"],
+		base := fmt.Sprintf("b=%s w=%s c=%s fin=%s addf=%s delf=%s getf=%s items=%s steps=%s", kv["b"], kv["w"], kv["c"], kv["fin"], kv["addf"], kv["delf"], kv["getf"],
 			strings.Join(it, ";"), strings.Join(steps, ","))
+		for _, k := range []string{"pp", "ph", "rf", "pz"} {
+			if kv[k] != "" {
+				base += " " + k + "=" + kv[k]
+			}
+		}
+		return base
 	}
 	var out []string
 	// drop the last item
@@ -374,6 +431,13 @@ func execHQFlow(in string) Result {
 	for _, e := range res.Events {
 		switch e.K {
 		case "R":
+			if h.kv["pp"] != "" {
+				// a link the real postprocessor found: the expected outlink is the model's
+				// mk_outlink of the document's item (URL text, hop count) and the link text
+				pev = append(pev, fmt.Sprintf("PR (mk_outlink %s %s %s)", coqHexS(e.Via), coqN(e.Hops), coqHexS(e.V)))
+				tags["hops:"+bucket(e.Hops+1)] = true
+				continue
+			}
 			q := h.items[e.I]
 			pev = append(pev, "PR ("+coqOutlink(q)+")")
 			t := unhex(q.V)
@@ -422,6 +486,65 @@ func execHQFlow(in string) Result {
 			tags["del:"+e.Res] = true
 			if e.Res != "O" {
 				nFail++
+			}
+		}
+	}
+	if h.kv["rf"] == "1" {
+		// several finisher workers (and hq.consumerSender) hand seeds to the source concurrently: the
+		// order in which the source took them is the order in which they show up in its batches
+		rank := map[string]int{}
+		for _, e := range res.Events {
+			if e.K == "D" {
+				for _, u := range e.Batch {
+					if _, ok := rank[u[0]]; !ok {
+						rank[u[0]] = len(rank)
+					}
+				}
+			}
+		}
+		var slots []int
+		var frs []string
+		for i, t := range fev {
+			if strings.HasPrefix(t, "FR ") {
+				slots = append(slots, i)
+				frs = append(frs, t)
+			}
+		}
+		idOf := func(t string) string { // FR (hx "<id>") n
+			a := strings.Index(t, "\"")
+			b := strings.LastIndex(t, "\"")
+			if a < 0 || b <= a {
+				return ""
+			}
+			return t[a+1 : b]
+		}
+		sort.SliceStable(frs, func(i, j int) bool {
+			ri, oki := rank[idOf(frs[i])]
+			rj, okj := rank[idOf(frs[j])]
+			if oki != okj {
+				return oki
+			}
+			return oki && ri < rj
+		})
+		for k, i := range slots {
+			fev[i] = frs[k]
+		}
+		tags["real-finisher"] = true
+	}
+	if res.PauseDuringOutage {
+		tags["pause-during-outage"] = true
+	} else if res.PauseIssued {
+		tags["pause-while-worker-blocked"] = true
+	}
+	if h.kv["pp"] != "" {
+		if sp, ok := parsePP(h.kv["pp"]); ok {
+			if sp.redirects > 0 {
+				tags["pp:page-behind-redirect"] = true
+			} else {
+				tags["pp:page-is-seed"] = true
+			}
+			if sp.json {
+				tags["pp:links-in-child-asset-document"] = true
 			}
 		}
 	}
